@@ -657,6 +657,14 @@ func runC01(c *mon.Ctx) {
 			if f.CreationTime.IsZero() && f.ModificationTime.IsZero() {
 				f.ModificationTime = f.ModificationTime.AddDate(2001, 0, 0)
 			}
+			if co, ok := f.Outlines.(*cff.Outlines); ok && k.Index/6%2 == 0 {
+				// fonts constructed in memory can have fractional widths
+				for i, g := range co.Glyphs {
+					if i%3 == 1 {
+						g.Width += 0.5
+					}
+				}
+			}
 			return f
 		}
 		used, fresh := mk(), mk()
